@@ -84,3 +84,9 @@ claim("C13",
   "Decides structural necessary conditions of C13 for every pod: the forbidden QoS/priority pairs cover the priority enum; ranges are ordered and disjoint; on update both immutability validators compare the raw classes on every path and every validator result decides the admission; translation replaces and erases on the same path with the value coming only from the native amount (CPU in milli), over requests/limits of both container lists and overhead; a request is filled from a limit only when undeclared; batch needs BE and LSR/LSE need whole CPUs. It does not decide amount preservation for arbitrary quantities, idempotence, or the summary annotation.",
   "trusts go/ssa/go/types and the rule tables in internal/rules/c13.go; the priority bounds are package variables, their declared initial values are checked",
   "DESIGN.md §4 C13")
+
+claim("C14",
+  "custom SSA rules: sibling comparison of pod-level and container-level setters (extractor, conversion, structurally rendered post-conversion expression, response field, disabled value), dominating-guard rule on every response write, must-reach rule for the normalization ratio",
+  "Decides structural necessary conditions of C14 for every container list and configuration: pod and container level use the same extractor on the same list, the same conversion and the same adjustment after it (so one level cannot be clamped or scaled differently from the other), write the same response field and the same disabled value; nothing is written for non-BE pods or without an extended spec; a successfully read CPU normalization ratio always reaches the rule. It does not decide the conversion arithmetic, rounding or the numeric 'pod no tighter than a container'.",
+  "trusts go/ssa and the canonical rendering of SSA expressions; the pod-level aggregation loop is deliberately outside the comparison",
+  "DESIGN.md §4 C14")
